@@ -12,6 +12,39 @@ func init() {
 		"that yaml.v3 attaches nothing from blanked text; the nesting/adjacency state machine of the five flags (legacy behaviour of ignore/* comments that themselves sit on excluded lines is pinned by the unit tests and left as is).")
 }
 
+// linesPublishedBlanked: the line table the positions are reconstructed from
+// (ContentReader.lines) receives each line once, from the same buffer the YAML
+// decoder is served from, after parseComments blanked the excluded text.
+// Shared by C10-R1 and C06-R7.
+func linesPublishedBlanked(c *Ctx, rule string, rnl *FuncInfo) {
+	const CR = "internal/parser.ContentReader"
+	info := rnl.Pkg.TypesInfo
+	fl := c.P.NewFlow(rnl)
+	isPC := func(n ast.Node) bool { return fl.containsCall(n, "internal/parser.ContentReader.parseComments") }
+	pubs := fl.Find(func(n ast.Node) bool {
+		as, ok := n.(*ast.AssignStmt)
+		if !ok || len(as.Lhs) != 1 || !fieldSel(info, as.Lhs[0], CR, "lines") {
+			return false
+		}
+		return true
+	})
+	c.Check(len(pubs) == 1, rule, "readNextLine:publishes the line once", rnl.Decl.Pos(), "one append to r.lines", itoa(len(pubs))+" stores to r.lines")
+	for _, s := range pubs {
+		target := s.Site
+		ok, _ := fl.MustPass(fl.Entry(), func(x Site) bool { return x == target }, false, isPC)
+		c.Check(ok, rule, "readNextLine:parseComments precedes the append to r.lines", s.Inner.Pos(), "blank before publish", "a line can be recorded in r.lines before its comments were parsed and excluded text blanked (positions are later read from unblanked text)")
+		// the published text is the (blanked) buffer
+		mentionsBuf := false
+		ast.Inspect(s.Inner, func(n ast.Node) bool {
+			if sel, ok := n.(*ast.SelectorExpr); ok && fieldSel(info, sel, CR, "buf") {
+				mentionsBuf = true
+			}
+			return true
+		})
+		c.Check(mentionsBuf, rule, "readNextLine:r.lines receives r.buf", s.Inner.Pos(), "same buffer", "r.lines is fed from something other than the blanked buffer")
+	}
+}
+
 func runC10(c *Ctx) {
 	p := c.P
 	c.Rule("C10-R1", "comments parsed and excluded text blanked before a line is published; writers of the line buffer", 6)
@@ -32,28 +65,7 @@ func runC10(c *Ctx) {
 	{
 		fl := p.NewFlow(rnl)
 		isPC := func(n ast.Node) bool { return fl.containsCall(n, "internal/parser.ContentReader.parseComments") }
-		pubs := fl.Find(func(n ast.Node) bool {
-			as, ok := n.(*ast.AssignStmt)
-			if !ok || len(as.Lhs) != 1 || !fieldSel(info, as.Lhs[0], CR, "lines") {
-				return false
-			}
-			return true
-		})
-		c.Check(len(pubs) == 1, "C10-R1", "readNextLine:publishes the line once", rnl.Decl.Pos(), "one append to r.lines", itoa(len(pubs))+" stores to r.lines")
-		for _, s := range pubs {
-			target := s.Site
-			ok, _ := fl.MustPass(fl.Entry(), func(x Site) bool { return x == target }, false, isPC)
-			c.Check(ok, "C10-R1", "readNextLine:parseComments precedes the append to r.lines", s.Inner.Pos(), "blank before publish", "a line can be recorded in r.lines before its comments were parsed and excluded text blanked (positions are later read from unblanked text)")
-			// the published text is the (blanked) buffer
-			mentionsBuf := false
-			ast.Inspect(s.Inner, func(n ast.Node) bool {
-				if sel, ok := n.(*ast.SelectorExpr); ok && fieldSel(info, sel, CR, "buf") {
-					mentionsBuf = true
-				}
-				return true
-			})
-			c.Check(mentionsBuf, "C10-R1", "readNextLine:r.lines receives r.buf", s.Inner.Pos(), "same buffer", "r.lines is fed from something other than the blanked buffer")
-		}
+		linesPublishedBlanked(c, "C10-R1", rnl)
 		// after the fill, every normal exit with a non-empty buffer passes parseComments
 		fills := fl.Find(func(n ast.Node) bool {
 			as, ok := n.(*ast.AssignStmt)
